@@ -1,6 +1,11 @@
 """Property registry: which rules decide which property, on which feature sets, and the
-Decided / Not decided texts repeated in the evidence."""
+Decided / Not decided texts repeated in the evidence and the manifest."""
 import r_iface
+import r_serde
+import r_wrap
+import r_tables
+import r_action
+import r_counters
 
 
 def _sets(quick, thorough=None):
@@ -10,6 +15,8 @@ def _sets(quick, thorough=None):
 
 
 ALL8 = ['default', 'nodefault', 'unsafe', 'u16', 'u32', 'u64', 'f32', 'ci']
+TRUST = ['rustc (nightly) type checking and MIR lowering are faithful to the source', 'facts are extracted from /repo\'s working '
+         'tree on every run (content-addressed cache keyed by the hash of Cargo.toml, Cargo.lock and src/**)']
 
 NOT_APPLICABLE = {
     'C02': 'Equality of every sliding-window output with its from-scratch formula within a rounding allowance is a statement about '
@@ -26,21 +33,60 @@ NOT_APPLICABLE = {
     # claimed in DESIGN.md, check not built yet in this commit (moved to `checks` as each is armed):
     'C01': 'check under construction (DESIGN.md §5 C01): not yet armed in this commit',
     'C04': 'check under construction (DESIGN.md §5 C04): not yet armed in this commit',
-    'C05': 'check under construction (DESIGN.md §5 C05): not yet armed in this commit',
-    'C07': 'check under construction (DESIGN.md §5 C07): not yet armed in this commit',
-    'C09': 'check under construction (DESIGN.md §5 C09): not yet armed in this commit',
     'C10': 'check under construction (DESIGN.md §5 C10): not yet armed in this commit',
     'C12': 'check under construction (DESIGN.md §5 C12): not yet armed in this commit',
-    'C13': 'check under construction (DESIGN.md §5 C13): not yet armed in this commit',
-    'C14': 'check under construction (DESIGN.md §5 C14): not yet armed in this commit',
-    'C16': 'check under construction (DESIGN.md §5 C16): not yet armed in this commit',
     'C17': 'check under construction (DESIGN.md §5 C17): not yet armed in this commit',
-    'C18': 'check under construction (DESIGN.md §5 C18): not yet armed in this commit',
     'C19': 'check under construction (DESIGN.md §5 C19): not yet armed in this commit',
     'C20': 'check under construction (DESIGN.md §5 C20): not yet armed in this commit',
 }
 
 PROPS = {
+    'C05': dict(
+        rules=[r_tables.s06_ma_dispatch],
+        feature_sets=_sets(['default']),
+        explanation=('Wiring conditions every indicator formula depends on: (S06) for each of the MA kinds, MA::init builds the method '
+                     'type held by the same-named MAInstance variant from that arm\'s own period and wraps exactly that instance; '
+                     'MAInstance::next steps that payload with the input value and returns it; ma_period returns the arm\'s payload; '
+                     'ma_type codes are pairwise distinct; from_str maps exactly lowercase(kind) to the kind with the parsed period and '
+                     'rejects everything else. Decided by enumerating every path of the five functions on MIR.'),
+        not_decided=['the formulas themselves (which source, operator and period feed which average) are numeric behaviour: not decided',
+                     'step-once discipline of every stateful component (rule S07) when armed'],
+        assumptions=TRUST,
+        technique='static analysis: per-path table extraction from MIR (enum dispatch agreement)',
+        level_text=('Necessary wiring condition of "every moving-average kind where one is configurable": decided exactly for all 15 '
+                    'kinds x {init, next, ma_period, ma_type, from_str}. It does not decide the numeric formulas.'),
+    ),
+    'C07': dict(
+        rules=[r_counters.s08_monotone_counters],
+        feature_sets=_sets(['default']),
+        explanation=('Decides the sentence "nothing changes when an internal position counter reaches the capacity of PeriodType": every '
+                     'integer field of every Method / IndicatorInstance / Window is classified from the def-use trees of its writes in the '
+                     'step function (increment by a positive constant via +, +=, saturating/wrapping/checked add; reset; gated increment; '
+                     'other). A field that is only ever incremented and is narrower than 64 bits is a violation.'),
+        not_decided=['growth of rounding error in running sums and equality with the from-scratch definition at late positions '
+                     '(floating point): not decided; no numerical allowance is asserted by this check'],
+        assumptions=TRUST,
+        technique='static analysis: MIR def-use classification of integer state writes (monotone counter rule)',
+        level_text=('Necessary condition only (capacity-limited absolute positions). Exact over all 28 integer state fields; says nothing '
+                    'about floating-point drift.'),
+    ),
+    'C09': dict(
+        rules=[r_wrap.s09_pass_through, r_serde.s10_state_purity],
+        feature_sets=_sets(['default'], ['default', 'nodefault', 'ci']),
+        explanation=('(S09) every batch/functional wrapper (provided methods of Method, Sequence, IndicatorConfig, IndicatorInstance, '
+                     'WithHistory/WithLastValue::next) either steps next() exactly once per element on the element itself or delegates '
+                     'its own input to another wrapper; no lossy iterator adaptor or sub-slice lies in between; no impl overrides a '
+                     'provided wrapper. (S10) the state of every method/instance/config type is plain owned data (no interior '
+                     'mutability, pointers, borrows, Rc/Arc, fn objects, hash containers), Clone is derived, the crate has no mutable '
+                     'statics and calls no non-determinism source: by safe-Rust semantics instances are deterministic functions of '
+                     'their construction arguments and input history and clones are independent.'),
+        not_decided=['peek() == last value produced by next() (rule S11) when armed',
+                     'bit-identical results across machines with different fma/libm are a platform matter'],
+        assumptions=TRUST + ['safe Rust: a value without interior mutability or shared ownership is changed only through &mut access'],
+        technique='static analysis: call-graph / adaptor whitelist on MIR, type-closure walk (ownership argument)',
+        level_text=('Structural proof of the pass-through and determinism/clone clauses over all wrappers and all 127 state types; the '
+                    'peek clause is decided by S11 when listed in the evidence.'),
+    ),
     'C11': dict(
         rules=[r_iface.s13_result_arity, r_iface.s14_set_arms, r_iface.s15_naming_forwarding],
         feature_sets=_sets(['default'], ['default', 'nodefault', 'ci']),
@@ -54,10 +100,64 @@ PROPS = {
         not_decided=['that the parsed value equals the meaning of the text (delegated to str::parse / FromStr of MA and Source, '
                      'see C18/C05 rules)',
                      'default configuration valid and initialising: decided by the abstract interpreter rule A03 when armed'],
-        assumptions=['rustc MIR lowering is faithful', 'IndicatorResult::new stores min(SIZE, len) elements (read, not re-derived)'],
+        assumptions=TRUST + ['IndicatorResult::new stores min(SIZE, len) elements (read, not re-derived)'],
         technique='static analysis: custom MIR/HIR rules (per-path arm analysis of set(), array-length vs size() agreement, forwarding call-graph check)',
         level_text=('Every clause of the interface contract except the numeric meaning of parsed text is decided exactly on the '
                     'compiler IR for all 37 indicators: result arity vs size(), set() arms per public field on every path, NAME '
                     'identity, dyn->static forwarding. Structural and complete over the impl table; no execution.'),
+    ),
+    'C13': dict(
+        rules=[r_serde.s17_serde_coverage, r_serde.s02_manual_serde_tables, r_serde.s10_state_purity],
+        feature_sets=_sets(['default']),
+        explanation=('(S17) every Method / IndicatorInstance / IndicatorConfig / MA type and every crate type in its field closure has '
+                     'Serialize and Deserialize impls; derived impls carry no skip/default/with/flatten/from/into attribute (attributes '
+                     'read from the expanded AST), so the serialized form is field-complete; (S02) the two hand-written Serialize impls '
+                     'write exactly the field names their Deserialize helper structs read, each from the same-named field; (S10) state '
+                     'is plain data, so behaviour is a function of the restored fields.'),
+        not_decided=['that the chosen format round-trips every f64/integer bit-exactly (a property of the format crate)',
+                     'derived (recomputed) state of hand-written Deserialize impls and rejection of malformed window data (rules S03 / A01) when armed',
+                     'behavioural equality of restored instances is inferred from field-completeness, not observed'],
+        assumptions=TRUST + ['serde derive implements the documented field-wise behaviour'],
+        technique='static analysis: impl-table coverage query, AST attribute scan, writer/reader field-table agreement on MIR',
+        level_text=('Structural half of the round-trip property for all 127 state types; format assumption stated.'),
+    ),
+    'C14': dict(
+        rules=[r_counters.s08_monotone_counters],
+        feature_sets=_sets(['default']),
+        explanation=('Decides the clause "streams much longer than PeriodType::MAX" for the detectors: no position field of the crossing / '
+                     'reversal detectors (nor of any other method) is a capacity-limited monotone counter (S08).'),
+        not_decided=['that the max-side definitions themselves (strict/non-strict pair, pivot window, tie rule) are the documented ones',
+                     'mirror agreement CrossAbove/CrossUnder and Upper/LowerReversalSignal (rule S04) when armed'],
+        assumptions=TRUST,
+        technique='static analysis: MIR def-use classification of integer state writes (monotone counter rule)',
+        level_text='Necessary condition of the any-stream-length clause; exact over the detectors\' integer fields.',
+    ),
+    'C16': dict(
+        rules=[r_action.s22_eq_vs_ord],
+        feature_sets=_sets(['default']),
+        explanation=('(S22) for every enum with a hand-written PartialEq next to a derived Ord/PartialOrd (Action), every path of eq() is '
+                     'classified by the variants of both operands: pairs of different variants must return false and same-variant pairs '
+                     'must return equality of the payloads, because the derived comparison is Equal exactly then.'),
+        not_decided=['totality, saturation, monotonicity and the ratio laws over all f32/f64/i8 values (finite value-level facts better '
+                     'enumerated dynamically): not decided',
+                     'Buy/Sell symmetry of Neg, Sub, From<f64> (rule S04) when armed'],
+        assumptions=TRUST + ['derive(PartialOrd, Ord) compares discriminants first, then payloads (documented behaviour)'],
+        technique='static analysis: per-path variant-pair classification of eq() on MIR against the derived ordering',
+        level_text='Decides the clause "equality is an equivalence relation with which the ordering is consistent" structurally.',
+    ),
+    'C18': dict(
+        rules=[r_tables.s18_source_tables, r_tables.s06_ma_dispatch],
+        feature_sets=_sets(['default']),
+        explanation=('(S18) Source: the literal->variant table of from_str and the variant->literal table of Into<&str> are extracted from '
+                     'MIR paths; G(v) parses back to v for every variant, every literal is a fixed point of from_str\'s normalisation, the '
+                     'default arm is Err, serde names equal G, TryFrom forwards to from_str, and OHLCV::source(kind) calls exactly the '
+                     'accessor named G(kind) and returns it unchanged. (S06) MA: from_str maps lowercase(kind) to the kind with the parsed '
+                     'period and rejects other names.'),
+        not_decided=['numeric identities (tp, hl2, ohlc4, clv, true range), validate\'s exact acceptance set, associativity of +: '
+                     'statements about float values for all candles, not decided',
+                     'parsers never panic on any text: rule A01 when armed'],
+        assumptions=TRUST,
+        technique='static analysis: inverse-table agreement extracted from MIR match paths',
+        level_text='Text-form round trip and source(kind) wiring decided exactly for all 8 sources and 15 MA kinds.',
     ),
 }
